@@ -28,7 +28,9 @@ BRACE_BODIES = ['a', '', 'x y', '{b}', ']', '[', '[x', 'a]b', '\\bar{z}', 'a\nb'
                 'p q {r} \\bar{z} ] s', 'a b c d ] e [ f', '{u} {v} ] {w}']
 BRACKET_BODIES = ['a', '', 'x y', '{]}', '{[}', '[', '(', '{a]}', '\\bar{z}',
                   '{b}', 'a\nb', '\\bar[o]', '$m$', '\\]x' if False else 'k']
-TAILS = ['', ' tail', '.x', '\n\nzz', 'x', ' \n', '\\other', '(1)']
+TAILS = ['', ' tail', '.x', '\n\nzz', 'x', ' \n', '\\other', '(1)',
+         # blanks, then a bracket: only legal after an attached brace group (see legal())
+         ' [b] x', '\t[b]{d}', '\n[q] r', ' [u', ' \n [v]']
 CONTEXTS = {
     'top': ('', ''),
     'top-text': ('pre ', ' post'),
@@ -88,6 +90,13 @@ def legal(ctx, groups, seps, tail):
             pass
     if ctx == 'bracket-arg' and tail == '(1)':
         pass
+    # a bracket after blanks: text only if the run so far ended in an attached
+    # brace group (after the name or a bracket group it would still attach)
+    if tail.lstrip(' \t\n').startswith('[') and tail[:1] in ' \t\n':
+        if not groups or groups[-1][0] != 'r' or ctx == 'bracket-arg':
+            return False
+        if not all(attaching(s) for s in seps):
+            return True
     # the characters right after the name must not extend the name
     if not groups and (tail[:1].isalpha() or tail[:1] == '*'):
         return False
